@@ -10,6 +10,8 @@
 From Verif.Lib Require Import GoSem Bits.
 From Verif.Model Require Import Keystore ResetKeystore.
 From Verif.Proofs Require Import KeystoreProofs ResetKeystoreProofs.
+From Verif.Corr Require Run_C20B.
+From Verif.Proofs Require RunC20BSound.
 
 (* ======================= part 1: the plain keystore ======================= *)
 
@@ -213,3 +215,35 @@ Proof.
         intros k H; simpl in H; intuition subst; reflexivity.
     + eexists. split; [vm_compute; reflexivity|]. vm_compute. split; reflexivity.
 Qed.
+
+(* ============ part 3: the check of the bounded-buffer runs ============ *)
+
+(* 15. The reset model above stages a concurrent Put in one piece (unbounded buffer).  Runs of
+   the real keystore with a reset buffer of 1-3 keys are therefore judged by the final-state
+   clause of the property alone, by the executable check of Corr/Run_C20B.v.  That check decides
+   the clause exactly: verdict 0 iff, live and reopened, the keystore holds no key twice, every
+   supplied-or-previous key and every key of an acknowledged Put, nothing else (except keys of
+   Puts that failed), and reports the number of keys as its size - the previous set after an
+   error, the new set after a nil return that nobody cancelled, either complete set after a
+   requested cancellation. *)
+Theorem c20_bounded_buffer_check_decides_final_state_clause :
+  forall c, Verif.Corr.Run_C20B.verdict c = 0%nat <-> Verif.Proofs.RunC20BSound.final_clause c.
+Proof. exact Verif.Proofs.RunC20BSound.verdict_sound. Qed.
+Print Assumptions c20_bounded_buffer_check_decides_final_state_clause.
+
+(* the check accepts a run in which a Put of three keys was acknowledged during a completed
+   reset, and rejects the same run with one of those keys missing after the swap *)
+Example c20_bounded_buffer_check_discriminates :
+  Verif.Corr.Run_C20B.verdict
+    {| Verif.Corr.Run_C20B.b_ok := true; Verif.Corr.Run_C20B.b_cancel_req := false;
+       Verif.Corr.Run_C20B.b_old := [1%N]; Verif.Corr.Run_C20B.b_new := [2%N; 3%N];
+       Verif.Corr.Run_C20B.b_acked := [4%N; 5%N; 6%N]; Verif.Corr.Run_C20B.b_maybe := [];
+       Verif.Corr.Run_C20B.b_live := (5%Z, [2%N; 3%N; 4%N; 5%N; 6%N]);
+       Verif.Corr.Run_C20B.b_reopen := (5%Z, [2%N; 3%N; 4%N; 5%N; 6%N]) |} = 0%nat /\
+  Verif.Corr.Run_C20B.verdict
+    {| Verif.Corr.Run_C20B.b_ok := true; Verif.Corr.Run_C20B.b_cancel_req := false;
+       Verif.Corr.Run_C20B.b_old := [1%N]; Verif.Corr.Run_C20B.b_new := [2%N; 3%N];
+       Verif.Corr.Run_C20B.b_acked := [4%N; 5%N; 6%N]; Verif.Corr.Run_C20B.b_maybe := [];
+       Verif.Corr.Run_C20B.b_live := (4%Z, [2%N; 3%N; 4%N; 5%N]);
+       Verif.Corr.Run_C20B.b_reopen := (4%Z, [2%N; 3%N; 4%N; 5%N]) |} = 2%nat.
+Proof. split; vm_compute; reflexivity. Qed.
